@@ -86,9 +86,25 @@ def write_files(spec, directory, sheet_order=None):
     from openpyxl.workbook.defined_name import DefinedName
     books = books_of(spec)
     paths = {}
+    import re
+
+    def relink(text, links):
+        # spec['links'][book] = the workbook's external-link table: references to a listed book are written in the numeric form [n]Sheet!A1
+        for i, tgt in enumerate(links or (), 1):
+            text = re.sub(r"'\[%s\](\w+)'!" % re.escape(tgt), r'[%d]\1!' % i, text)
+            text = text.replace("'[%s]" % tgt, "'[%d]" % i).replace('[%s]' % tgt, '[%d]' % i)
+        return text
     for b, sheets in books.items():
+        links = (spec.get('links') or {}).get(b)
         wb = openpyxl.Workbook()
         wb.remove(wb.active)
+        if links:
+            from openpyxl.packaging.relationship import Relationship
+            from openpyxl.workbook.external_link.external import ExternalLink, ExternalBook, ExternalSheetNames
+            for tgt in links:
+                el = ExternalLink(externalBook=ExternalBook(sheetNames=ExternalSheetNames(sheetName=list(books.get(tgt, ['Sheet1'])))))
+                el.file_link = Relationship(type='externalLinkPath', Target=tgt, TargetMode='External')
+                wb._external_links.append(el)
         order = list(sheets)
         if sheet_order and b in sheet_order:
             order = sheet_order[b]
@@ -108,13 +124,13 @@ def write_files(spec, directory, sheet_order=None):
                 elif v[0] == 't':
                     cell.data_type = 's'
             else:
-                ws[co] = W.formula(c, (b, s))
+                ws[co] = relink(W.formula(c, (b, s)), links)
         for k, n in spec.get('arrays', {}).items():
             bb, s, r = k.split('|')
             if bb != b:
                 continue
             ws = wb[s]
-            ws[r.split(':')[0]] = ArrayFormula(r, W.formula(n, (b, s)))
+            ws[r.split(':')[0]] = ArrayFormula(r, relink(W.formula(n, (b, s)), links))
         for k, n in spec.get('names', {}).items():
             bb, nm = k.split('|')
             if bb != b:
